@@ -167,12 +167,24 @@ static const char * NOPS[] = {"==", "<", ">", "<=", ">=", "!="};
 static const char * SOPS[] = {"==", "<", ">", "<=", ">=", "!=", "startswith", "endswith", "contains", "isstartof", "isendof", "issubstringof"};
 static bool Plain(const std::string & s) {if (s.empty()) return false; for (size_t i=0;i<s.size();i++) if (!isalpha((unsigned char)s[i])) return false; return true;}
 static std::string NumStr(int t, int64 i, double d) {char b[64]; if (t<=T_I64) snprintf(b, sizeof(b), "%lld", (long long)i); else if (t==T_B) snprintf(b, sizeof(b), "%s", i?"true":"false"); else snprintf(b, sizeof(b), "%.17g", d); return b;}
+static uint32 g_uncastLiterals = 0;
 static std::string Expr(const F & f)
 {
    char idx[32] = ""; if (f.idx) snprintf(idx, sizeof(idx), ":%u", f.idx);
    switch(f.kind) {
       case K_EXISTS: {if (f.tc == B_ANY_TYPE) return "exists "+f.fn+idx; for (int t=0;t<7;t++) if (TC[t]==f.tc) return std::string("exists ")+CAST[t]+f.fn+idx; if (f.tc==B_STRING_TYPE) return "exists (string)"+f.fn+idx; return "";}
       case K_NUM: {if ((f.maskop)||(f.op>5)) return ""; if ((f.t==T_F)||(f.t==T_D)) {if ((std::isfinite(f.dval)==false)||((f.hasDef)&&(std::isfinite(f.ddef)==false))) return "";}
+         {
+            // the documented heuristics for a literal without a cast: true/false -> bool, digits -> int32, digits with a dot -> double, a trailing f -> float (also with a dot: "150.0f")
+            const bool uncast = (((f.idx+f.op+(uint32)f.fn.size()+(uint32)(f.ival&3))%2) == 1); char lit[64] = "";
+            if (uncast)
+            {
+               if (f.t == T_I32) snprintf(lit, sizeof(lit), "%lld", (long long)f.ival);
+               else if (f.t == T_B) snprintf(lit, sizeof(lit), "%s", f.ival ? "true" : "false");
+               else if (((f.t == T_F)||(f.t == T_D))&&(fabs(f.dval) < 1000.0)) snprintf(lit, sizeof(lit), "%.2f%s", f.dval, (f.t == T_F) ? "f" : "");
+            }
+            if (lit[0]) {g_uncastLiterals++; return f.fn+idx+(f.hasDef?("|"+NumStr(f.t, f.idef, f.ddef)):std::string(""))+" "+NOPS[f.op]+" "+lit;}
+         }
          return f.fn+idx+(f.hasDef?("|"+NumStr(f.t, f.idef, f.ddef)):std::string(""))+" "+NOPS[f.op]+" "+CAST[f.t]+NumStr(f.t, f.ival, f.dval);}
       case K_STR: {if ((f.op>11)||(Plain(f.sval)==false)||((f.hasDef)&&(Plain(f.sdef)==false))) return ""; return f.fn+idx+(f.hasDef?("|"+f.sdef):std::string(""))+" "+SOPS[f.op]+" \""+f.sval+"\"";}
       case K_AND: case K_OR: case K_XOR: {if (f.kids.size() < 2) return ""; std::string r; for (size_t i=0;i<f.kids.size();i++) {const std::string k = Expr(f.kids[i]); if (k.empty()) return ""; if (i) r += (f.kind==K_AND)?" && ":((f.kind==K_OR)?" || ":" ^ "); r += (f.kids[i].kind==K_NOR)?k:("("+k+")");} return r;}
@@ -299,7 +311,7 @@ extern "C" int vf_run_case(const uint8_t * data, size_t size)
    ByteBufferRef ab = arch.FlattenToByteBuffer(); Message arch2; if (arch2.UnflattenFromByteBuffer(*ab()).IsError()) FAIL("archive does not parse");
    QueryFilterRef q2 = GetGlobalQueryFilterFactory()()->CreateQueryFilter(arch2); if (q2() == NULL) FAIL("archive of a live filter rejected: %s", arch.ToString(3)());
    const std::string es = Expr(f); ConstQueryFilterRef q3;
-   if (es.size()) {q3 = CreateQueryFilterFromExpression(es.c_str()); if (q3() == NULL) FAIL("documented expression [%s] rejected", es.c_str()); vf::Count("expressions_parsed");}
+   if (es.size()) {q3 = CreateQueryFilterFromExpression(es.c_str()); if (q3() == NULL) FAIL("documented expression [%s] rejected", es.c_str()); vf::Count("expressions_parsed"); if (g_uncastLiterals) {vf::Count("expressions_with_uncast_literals"); g_uncastLiterals = 0;}}
    uint32 byValue = 0, declined = 0, compared = 0;
    for (int k=0; k<4; k++)
    {
